@@ -7,6 +7,7 @@ import (
 	"time"
 
 	awsapi "github.com/aws/aws-sdk-go/aws"
+	"github.com/aws/aws-sdk-go/aws/awserr"
 	"github.com/aws/aws-sdk-go/service/autoscaling"
 	"github.com/aws/aws-sdk-go/service/autoscaling/autoscalingiface"
 	"github.com/aws/aws-sdk-go/service/ec2"
@@ -55,7 +56,7 @@ func (s ASGAPI) DescribeAutoScalingGroups(in *autoscaling.DescribeAutoScalingGro
 	e := w.log(Entry{Op: OpDescribeASG, Target: target, IDs: names})
 	if w.decide(OpDescribeASG, target) == Fail {
 		e.Err = "injected"
-		return nil, errors.New("injected DescribeAutoScalingGroups failure")
+		return nil, awserr.New("Throttling", "injected DescribeAutoScalingGroups failure", nil)
 	}
 	out := &autoscaling.DescribeAutoScalingGroupsOutput{}
 	for _, n := range names {
@@ -78,7 +79,7 @@ func (s ASGAPI) SetDesiredCapacity(in *autoscaling.SetDesiredCapacityInput) (*au
 	}
 	if w.decide(OpSetDesired, name) == Fail {
 		e.Err = "injected"
-		return nil, errors.New("injected SetDesiredCapacity failure")
+		return nil, awserr.New("Throttling", "injected SetDesiredCapacity failure", nil)
 	}
 	if a == nil {
 		e.Err = "nogroup"
@@ -116,7 +117,7 @@ func (s ASGAPI) TerminateInstanceInAutoScalingGroup(in *autoscaling.TerminateIns
 	}
 	if w.decide(OpTerminate, id) == Fail {
 		e.Err = "injected"
-		return nil, errors.New("injected TerminateInstanceInAutoScalingGroup failure")
+		return nil, awserr.New("Throttling", "injected TerminateInstanceInAutoScalingGroup failure", nil)
 	}
 	if a == nil {
 		e.Err = "notmember"
@@ -149,7 +150,7 @@ func (s ASGAPI) AttachInstances(in *autoscaling.AttachInstancesInput) (*autoscal
 	}
 	if w.decide(OpAttach, name) == Fail {
 		e.Err = "injected"
-		return nil, errors.New("injected AttachInstances failure")
+		return nil, awserr.New("Throttling", "injected AttachInstances failure", nil)
 	}
 	if a == nil {
 		e.Err = "nogroup"
@@ -190,7 +191,7 @@ func (s ASGAPI) CreateOrUpdateTags(in *autoscaling.CreateOrUpdateTagsInput) (*au
 	e := w.log(Entry{Op: OpTags, Target: name})
 	if w.decide(OpTags, name) == Fail {
 		e.Err = "injected"
-		return nil, errors.New("injected CreateOrUpdateTags failure")
+		return nil, awserr.New("Throttling", "injected CreateOrUpdateTags failure", nil)
 	}
 	if a := w.FindASG(name); a != nil {
 		for _, t := range in.Tags {
@@ -231,7 +232,7 @@ func (s EC2API) CreateFleet(in *ec2.CreateFleetInput) (*ec2.CreateFleetOutput, e
 	}
 	if w.decide(OpCreateFleet, grp) == Fail {
 		e.Err = "injected"
-		return nil, errors.New("injected CreateFleet failure")
+		return nil, awserr.New("RequestLimitExceeded", "injected CreateFleet failure", nil)
 	}
 	if w.FleetErrors {
 		e.Err = "fleeterrors"
@@ -273,7 +274,7 @@ func (s EC2API) DescribeInstanceStatusPages(in *ec2.DescribeInstanceStatusInput,
 	e := w.log(Entry{Op: OpStatus, Val: int64(w.polls), Extra: map[string]string{"n": fmt.Sprint(len(ids))}})
 	if w.decide(OpStatus, "") == Fail {
 		e.Err = "injected"
-		return errors.New("injected DescribeInstanceStatus failure")
+		return awserr.New("RequestLimitExceeded", "injected DescribeInstanceStatus failure", nil)
 	}
 	if w.ReadyFromPoll > 0 {
 		for i, id := range ids {
@@ -329,7 +330,7 @@ func (s EC2API) DescribeInstances(in *ec2.DescribeInstancesInput) (*ec2.Describe
 	e := w.log(Entry{Op: OpDescribeIns, Target: target, IDs: ids})
 	if w.decide(OpDescribeIns, target) == Fail {
 		e.Err = "injected"
-		return nil, errors.New("injected DescribeInstances failure")
+		return nil, awserr.New("RequestLimitExceeded", "injected DescribeInstances failure", nil)
 	}
 	out := &ec2.DescribeInstancesOutput{}
 	for _, id := range ids {
@@ -351,7 +352,7 @@ func (s EC2API) TerminateInstances(in *ec2.TerminateInstancesInput) (*ec2.Termin
 	e := w.log(Entry{Op: OpTermIns, IDs: append([]string(nil), ids...)})
 	if w.decide(OpTermIns, "") == Fail {
 		e.Err = "injected"
-		return nil, errors.New("injected TerminateInstances failure")
+		return nil, awserr.New("RequestLimitExceeded", "injected TerminateInstances failure", nil)
 	}
 	for _, id := range ids {
 		if inst := w.EC2[id]; inst != nil {
